@@ -148,6 +148,15 @@ func (pq *PrefetchQueue) processPrefetch(req PrefetchRequest) {
 	// from the copy (it is the cache key and the validation opt-out).
 	if opt := prefetchReq.IsEdns0(); opt != nil {
 		opt.SetDo(true)
+		// The refresh replaces the entry that claimed it, and only shared
+		// entries are prefetch-eligible: the question to repeat is the one
+		// no client subnet is attached to. An ECS client may well have hit
+		// the shared entry and triggered this refresh; forwarding its option
+		// would have the authority tailor (and scope) the answer to that one
+		// subnet, and ReplaceIfCurrent would file it under the shared key.
+		if req.Entry == nil || !req.Entry.scoped() {
+			opt.Option = withoutClientSubnet(opt.Option)
+		}
 	} else {
 		prefetchReq.SetEdns0(dnsutil.DefaultMsgSize, true)
 	}
@@ -234,6 +243,18 @@ func (pq *PrefetchQueue) processPrefetch(req PrefetchRequest) {
 	} else {
 		zlog.Debug("Prefetch completed", "query", dnsutil.FormatQuestion(req.Request.Question[0]), "rcode", dns.RcodeToString[resp.Rcode])
 	}
+}
+
+// withoutClientSubnet returns opts minus every EDNS Client Subnet option. The
+// message is the worker's private copy, so filtering in place is safe.
+func withoutClientSubnet(opts []dns.EDNS0) []dns.EDNS0 {
+	keep := opts[:0]
+	for _, o := range opts {
+		if _, isECS := o.(*dns.EDNS0_SUBNET); !isECS {
+			keep = append(keep, o)
+		}
+	}
+	return keep
 }
 
 // releasePrefetchClaim clears the prefetch flag so future
